@@ -53,6 +53,94 @@ extern "C"
     char *igv_strupr(char *);
     unsigned igv_block_sz(void);
     int igv_char_is_signed(void);
+    int igv_ct_libc(int which, int c);
+    int igv_ct_igris(int which, int c);
+    unsigned igv_plat2(int k);
+}
+
+// ------------------------------------------------------------ byte-exact access monitor (round 3)
+// C08_impl.c is compiled with `--param asan-instrumentation-with-call-threshold=0`:
+// every load/store of the code under test calls __asan_loadN/__asan_storeN.  The
+// definitions below take precedence over libasan's: they (1) keep ASan's own
+// verdict (poisoned -> the usual report and abort) and (2) compare the access,
+// byte by byte, with the payloads of the op's buffers.  ASan's shadow has an
+// 8-byte granule and cannot poison the pad bytes in front of a payload that
+// starts at a non-zero alignment; this monitor sees a 1-byte under-read at
+// every alignment, and it records the extent of all reads and writes per
+// buffer so that the oracle can compare them with the ranges the definition
+// allows (also when the argument lies inside a larger buffer).
+#define NOSAN __attribute__((no_sanitize("address", "undefined")))
+struct Zone
+{
+    uintptr_t blo, bhi; // the malloc block
+    uintptr_t lo, hi;   // the payload
+    uintptr_t rlo, rhi, wlo, whi; // extents of the reads / writes seen
+};
+static Zone g_z[16];
+static int g_nz = 0;
+static bool g_mon = false;
+static char g_viol[200];
+static uint64_t g_nacc = 0;
+NOSAN static void mon_access(void *a, size_t sz, bool wr, void *pc)
+{
+    uintptr_t x = (uintptr_t)a;
+    if (g_mon)
+    {
+        g_nacc++;
+        bool inside = false;
+        int nz = -1;
+        for (int i = 0; i < g_nz; i++)
+        {
+            Zone &z = g_z[i];
+            if (x >= z.lo && x + sz <= z.hi)
+            {
+                inside = true;
+                if (wr) { if (x < z.wlo) z.wlo = x; if (x + sz > z.whi) z.whi = x + sz; }
+                else { if (x < z.rlo) z.rlo = x; if (x + sz > z.rhi) z.rhi = x + sz; }
+                break;
+            }
+            if (x + sz + 32 > z.blo && x < z.bhi + 32 && nz < 0) nz = i;
+        }
+        if (!inside && nz >= 0 && !g_viol[0])
+            snprintf(g_viol, sizeof g_viol, "%s of %zu byte(s) at %c%+td, outside the object (%zu bytes)", wr ? "store" : "load", sz,
+                     (char)('A' + nz), (ptrdiff_t)(x - g_z[nz].lo), (size_t)(g_z[nz].hi - g_z[nz].lo));
+    }
+    if (__asan_region_is_poisoned(a, sz))
+        __asan_report_error(pc, __builtin_frame_address(0), __builtin_frame_address(0), a, wr, sz);
+}
+extern "C"
+{
+#define HOOK(n) \
+    NOSAN void __asan_load##n(void *a) { mon_access(a, n, false, __builtin_return_address(0)); } \
+    NOSAN void __asan_store##n(void *a) { mon_access(a, n, true, __builtin_return_address(0)); }
+    HOOK(1) HOOK(2) HOOK(4) HOOK(8) HOOK(16)
+    NOSAN void __asan_loadN(void *a, long n) { mon_access(a, (size_t)n, false, __builtin_return_address(0)); }
+    NOSAN void __asan_storeN(void *a, long n) { mon_access(a, (size_t)n, true, __builtin_return_address(0)); }
+}
+static void zone_add(uint8_t *blo, size_t btotal, uint8_t *p, size_t n)
+{
+    if (g_nz >= 16) return;
+    Zone &z = g_z[g_nz++];
+    z.blo = (uintptr_t)blo; z.bhi = z.blo + btotal;
+    z.lo = (uintptr_t)p; z.hi = z.lo + n;
+    z.rlo = z.wlo = ~(uintptr_t)0; z.rhi = z.whi = 0;
+}
+struct MonScope
+{
+    MonScope() { g_mon = true; }
+    ~MonScope() { g_mon = false; }
+};
+static uint64_t fnv64(const uint8_t *p, size_t n)
+{
+    uint64_t h = 0xcbf29ce484222325ull;
+    for (size_t i = 0; i < n; i++) { h ^= p[i]; h *= 0x100000001b3ull; }
+    return h;
+}
+static std::string hashed(const uint8_t *p, size_t n)
+{
+    char b[64];
+    snprintf(b, sizeof b, "%zu:%016llx", n, (unsigned long long)fnv64(p, n));
+    return b;
 }
 
 static_assert(sizeof(long) == 8 && sizeof(void *) == 8, "LP64 expected");
@@ -67,9 +155,13 @@ extern "C" void *igv_malloc(size_t n)
 {
     if (g_fail)
         return nullptr;
+    bool was = g_mon;
+    g_mon = false;
     g_blk = (uint8_t *)malloc(n ? n : 1);
     g_blk_n = n;
     memset(g_blk, 0xA5, n);
+    zone_add(g_blk, n ? n : 1, g_blk, n);
+    g_mon = was;
     return g_blk;
 }
 
@@ -78,10 +170,11 @@ struct Buf
 {
     uint8_t *base, *p;
     size_t n, align;
+    size_t total = 0;
     bool poisoned = false;
     Buf(size_t al, const bytes &v) : n(v.size()), align(al)
     {
-        size_t total = align + n;
+        total = align + n;
         if (total == 0)
         {
             // a zero-sized object: nothing at all may be accessed
@@ -135,6 +228,35 @@ static bool parse_ptr(const std::string &t, int &b, size_t &off)
     return true;
 }
 
+// buffer contents: hex, or `@<len>,<mul>,<add>[,<pos>=<hh>]*` = byte i is
+// 1 + (i*mul + add) % 251 (never NUL), then the patches (long inputs)
+static bytes parse_data(const std::string &s)
+{
+    if (s.empty() || s[0] != '@')
+        return unhex(s);
+    std::vector<std::string> f;
+    size_t st = 1;
+    while (st <= s.size())
+    {
+        size_t c = s.find(',', st);
+        if (c == std::string::npos) c = s.size();
+        f.push_back(s.substr(st, c - st));
+        st = c + 1;
+    }
+    if (f.size() < 3) return bytes();
+    size_t len = strtoull(f[0].c_str(), 0, 10), mul = strtoull(f[1].c_str(), 0, 10), add = strtoull(f[2].c_str(), 0, 10);
+    bytes v(len);
+    for (size_t i = 0; i < len; i++) v[i] = (uint8_t)(1 + (i * mul + add) % 251);
+    for (size_t k = 3; k < f.size(); k++)
+    {
+        size_t eq = f[k].find('=');
+        if (eq == std::string::npos) continue;
+        size_t pos = strtoull(f[k].c_str(), 0, 10);
+        if (pos < len) v[pos] = (uint8_t)strtoul(f[k].c_str() + eq + 1, 0, 16);
+    }
+    return v;
+}
+
 static int sgn(long long v) { return v < 0 ? -1 : v > 0 ? 1 : 0; }
 static const char *sgs(int s) { return s < 0 ? "<" : s > 0 ? ">" : "="; }
 static std::string offs(const void *ret, const void *base)
@@ -178,10 +300,112 @@ static bool has_nul(const uint8_t *p, size_t n)
     return false;
 }
 
-static void run_op(const std::vector<std::string> &w, const std::string &, out &o)
+static const char *const CT_NAMES[13] = {"isalnum", "isalpha", "isblank", "isdigit", "islower", "isprint", "isspace", "isupper", "isxdigit", "tolower", "toupper", "isascii", "toascii"};
+// the "C" locale definition, by the host libc for the arguments ISO C allows
+// (EOF, 0..255; the harness never calls setlocale) and by the definition itself
+// elsewhere (no int outside 0..127 is in any class; conversions return it unchanged)
+static int ct_ref(int which, int c)
 {
+    bool iso = c == EOF || (c >= 0 && c <= 255);
+    switch (which)
+    {
+    case 0: return iso ? !!isalnum(c) : 0;
+    case 1: return iso ? !!isalpha(c) : 0;
+    case 2: return iso ? !!isblank(c) : 0;
+    case 3: return iso ? !!isdigit(c) : 0;
+    case 4: return iso ? !!islower(c) : 0;
+    case 5: return iso ? !!isprint(c) : 0;
+    case 6: return iso ? !!isspace(c) : 0;
+    case 7: return iso ? !!isupper(c) : 0;
+    case 8: return iso ? !!isxdigit(c) : 0;
+    case 9: return iso ? tolower(c) : c;
+    case 10: return iso ? toupper(c) : c;
+    case 11: return c >= 0 && c <= 127; // POSIX: defined on all integer values
+    default: return c & 0x7f;          // POSIX toascii
+    }
+}
+static int ct_norm(int which, int v) { return which <= 8 || which == 11 ? !!v : v; }
+
+// ops executed BEFORE main() by a constructor of the highest priority (nothing of
+// the library may depend on static initialisation: strtok's static, lazily built
+// tables, ...); the op `premain <k> <line>` reports what they returned
+static const char *const PREMAIN_LINES[] = {
+    "strtok A=0:612c623b3b632c6400 B=0:2c00 C=0:3b00 A+0,B+0 N,C+0 N,B+0 N,B+0 N,B+0",
+    "memmove A=0:000102030405060708090a0b0c0d0e0f101112131415161718191a1b1c1d1e1f202122232425262728292a2b2c2d2e2f A+8 A+0 #40",
+    "cttab tolower libc",
+    "strcasecmp A=0:41625a7a00 B=0:61427a5a00 A+0 B+0",
+};
+static const int PREMAIN_N = sizeof PREMAIN_LINES / sizeof PREMAIN_LINES[0];
+static char g_pm_result[PREMAIN_N][2048], g_pm_oracle[PREMAIN_N][512];
+
+static void run_op(const std::vector<std::string> &w_, const std::string &line_, out &o)
+{
+    if (w_.empty()) { o.result = "bad-op"; return; }
+    if (w_[0] == "premain")
+    {
+        // the op line was executed by a constructor that ran before main() (see Premain below)
+        o.tag("premain");
+        int k = w_.size() > 1 ? atoi(w_[1].c_str()) : -1;
+        if (k < 0 || k >= PREMAIN_N) { o.result = "bad-op"; return; }
+        std::string rest;
+        for (size_t i = 2; i < w_.size(); i++) rest += (i > 2 ? " " : "") + w_[i];
+        o.result = g_pm_result[k];
+        if (rest != PREMAIN_LINES[k]) o.fail("premain: the generated line is not the one the constructor ran");
+        if (strcmp(g_pm_oracle[k], "ok") != 0) o.fail(std::string("before main(): ") + g_pm_oracle[k]);
+        return;
+    }
+    // `L:<fn>`: a long input; buffers are reported as <length>:<FNV-1a 64> instead of hex
+    bool lg = w_[0].rfind("L:", 0) == 0;
+    std::vector<std::string> w = w_;
+    if (lg) w[0] = w[0].substr(2);
     const std::string &fn = w[0];
+    g_nz = 0;
+    g_viol[0] = 0;
+    g_nacc = 0;
     if (fn == "reset") { o.result = "ok"; return; }
+    if (fn == "plat2")
+    {
+        static const char *const nm[8] = {"long", "size_t", "int", "A", "Z", "a", "z", "delta"};
+        for (int k = 0; k < 8; k++) o.result += std::string(k ? " " : "") + nm[k] + "=" + std::to_string(igv_plat2(k));
+        o.tag("plat2");
+        return;
+    }
+    if (fn == "cttab" || fn == "ctype")
+    {
+        // cttab <name> <libc|igris>: the function on EOF, 0..255;   ctype #<c>: all 13 on one int, both spellings
+        o.tag(fn.c_str());
+        if (fn == "cttab")
+        {
+            if (w.size() != 3) { o.result = "bad-op"; return; }
+            int which = -1;
+            for (int k = 0; k < 13; k++) if (w[1] == CT_NAMES[k]) which = k;
+            if (which < 0) { o.result = "bad-op"; return; }
+            bool ig = w[2] == "igris";
+            o.tag(CT_NAMES[which]);
+            for (int c = -1; c <= 255; c++)
+            {
+                int v = ig ? igv_ct_igris(which, c) : igv_ct_libc(which, c);
+                int e = ct_ref(which, c);
+                if (which <= 8 || which == 11) o.result += v ? '1' : '0';
+                else o.result += (c == -1 ? "" : ",") + std::to_string(v);
+                if (ct_norm(which, v) != e)
+                    o.fail(std::string(CT_NAMES[which]) + "(" + std::to_string(c) + ") = " + std::to_string(v) + ", the C locale gives " + std::to_string(e));
+            }
+            return;
+        }
+        if (w.size() != 2 || w[1][0] != '#') { o.result = "bad-op"; return; }
+        int c = (int)strtoll(w[1].c_str() + 1, 0, 10);
+        if (!(c == EOF || (c >= 0 && c <= 255))) o.tag("outside-iso-domain");
+        for (int k = 0; k < 13; k++)
+        {
+            int v = igv_ct_libc(k, c), v2 = igv_ct_igris(k, c), e = ct_ref(k, c);
+            o.result += std::string(k ? " " : "") + std::to_string(ct_norm(k, v));
+            if (ct_norm(k, v) != ct_norm(k, v2)) o.fail(std::string(CT_NAMES[k]) + " and igris_" + CT_NAMES[k] + " disagree on " + std::to_string(c));
+            if (ct_norm(k, v) != e)
+                o.fail(std::string(CT_NAMES[k]) + "(" + std::to_string(c) + ") = " + std::to_string(v) + ", the definition gives " + std::to_string(e));
+        }
+        return;
+    }
     if (fn == "plat")
     {
         o.result = "long=" + std::to_string(igv_block_sz()) + " char=" + (igv_char_is_signed() ? "signed" : "unsigned");
@@ -196,8 +420,9 @@ static void run_op(const std::vector<std::string> &w, const std::string &, out &
     {
         size_t colon = w[i].find(':');
         size_t al = strtoul(w[i].c_str() + 2, 0, 10);
-        bytes v = unhex(w[i].substr(colon + 1));
+        bytes v = parse_data(w[i].substr(colon + 1));
         bufs.emplace_back(new Buf(al, v));
+        zone_add(bufs.back()->base, bufs.back()->total ? bufs.back()->total : 8, bufs.back()->p, bufs.back()->n);
         cn.push_back(v.size());
         v.resize(v.size() + 8, 0xCC);
         cp.push_back(v);
@@ -245,11 +470,34 @@ static void run_op(const std::vector<std::string> &w, const std::string &, out &
         return true;
     };
     o.tag(fn.c_str());
+    if (lg) o.tag("long");
     for (size_t k = 0; k < bufs.size(); k++)
     {
         bytes v(bufs[k]->p, bufs[k]->p + bufs[k]->n);
         if (has_hi(v)) { o.tag("highbit"); break; }
     }
+    // the ranges the definition allows the call to read / write, per buffer (hull)
+    struct Span { uintptr_t lo = ~(uintptr_t)0, hi = 0; };
+    Span AR[16], AW[16];
+    bool exact = false;
+    auto allowR = [&](int k, size_t off, size_t len) {
+        exact = true;
+        if (!len) return;
+        uintptr_t x = (uintptr_t)P(k) + off;
+        Span &sp = AR[a[k].b];
+        if (x < sp.lo) sp.lo = x;
+        if (x + len > sp.hi) sp.hi = x + len;
+    };
+    auto allowW = [&](int k, size_t off, size_t len) {
+        exact = true;
+        if (!len) return;
+        uintptr_t x = (uintptr_t)P(k) + off;
+        Span &sp = AW[a[k].b];
+        if (x < sp.lo) sp.lo = x;
+        if (x + len > sp.hi) sp.hi = x + len;
+    };
+    auto qlen = [&](int k) { return strnlen(Q(k), avail(k)); }; // length of the string / array at argument k
+    MonScope mon_on;
     std::string ret, exp;
 #define BAD() do { o.result = "bad-op"; return; } while (0)
     if (fn == "memcpy" || fn == "memmove")
@@ -263,6 +511,7 @@ static void run_op(const std::vector<std::string> &w, const std::string &, out &
         if (s < d && d < s + n) o.tag("overlap-backward");
         else if (d < s && s < d + n) o.tag("overlap-forward");
         else if (d == s && n) o.tag("overlap-same");
+        allowR(1, 0, n); allowW(0, 0, n);
         void *r = fn == "memcpy" ? igv_memcpy(P(0), P(1), n) : igv_memmove(P(0), P(1), n);
         ret = offs(r, P(0));
         memmove(Q(0), Q(1), n);
@@ -273,6 +522,7 @@ static void run_op(const std::vector<std::string> &w, const std::string &, out &
         if (!sig("pii")) BAD();
         if (I(2) == 0) o.tag("n=0");
         if (C(1) < 0 || C(1) > 255) o.tag("c-outside-uchar");
+        allowW(0, 0, I(2));
         ret = offs(igv_memset(P(0), C(1), I(2)), P(0));
         memset(Q(0), C(1), I(2));
         exp = "+0";
@@ -281,6 +531,7 @@ static void run_op(const std::vector<std::string> &w, const std::string &, out &
     {
         if (!sig("ppi")) BAD();
         if (I(2) == 0) o.tag("n=0");
+        allowR(0, 0, I(2)); allowR(1, 0, I(2));
         int r = sgn(igv_memcmp(P(0), P(1), I(2)));
         int e = sgn(memcmp(Q(0), Q(1), I(2)));
         ret = sgs(r); exp = sgs(e);
@@ -293,15 +544,19 @@ static void run_op(const std::vector<std::string> &w, const std::string &, out &
         if (n == 0) o.tag("n=0");
         if (C(1) < 0 || C(1) > 255) o.tag("c-outside-uchar");
         if (n > avail(0)) o.tag("n>object");
-        void *r = fn == "memchr" ? igv_memchr(P(0), C(1), n) : igv_memrchr(P(0), C(1), n);
         size_t ne = n < avail(0) ? n : avail(0);
         void *e = fn == "memchr" ? memchr(Q(0), C(1), ne) : memrchr(Q(0), C(1), ne);
+        // C11 7.24.5.1: memchr behaves as if it read sequentially and stopped at the first match
+        allowR(0, 0, fn == "memchr" && e ? (size_t)((char *)e - Q(0)) + 1 : n);
+        if (n == ~(size_t)0) o.tag("n=SIZE_MAX");
+        void *r = fn == "memchr" ? igv_memchr(P(0), C(1), n) : igv_memrchr(P(0), C(1), n);
         ret = offs(r, P(0)); exp = offs(e, Q(0));
         o.tag(e ? "found" : "notfound");
     }
     else if (fn == "strlen")
     {
         if (!sig("p")) BAD();
+        allowR(0, 0, qlen(0) + 1);
         ret = std::to_string(igv_strlen(P(0)));
         exp = std::to_string(strlen(Q(0)));
         if (exp == "0") o.tag("empty");
@@ -311,6 +566,8 @@ static void run_op(const std::vector<std::string> &w, const std::string &, out &
         if (!sig("pi")) BAD();
         size_t n = I(1), ne = n < avail(0) ? n : avail(0);
         if (!has_nul((uint8_t *)Q(0), avail(0))) o.tag("unterminated");
+        allowR(0, 0, std::min(qlen(0) + 1, n));
+        if (n == ~(size_t)0) o.tag("n=SIZE_MAX");
         ret = std::to_string(igv_strnlen(P(0), n));
         size_t e = strnlen(Q(0), ne);
         exp = std::to_string(e);
@@ -319,6 +576,12 @@ static void run_op(const std::vector<std::string> &w, const std::string &, out &
     else if (fn == "strcpy" || fn == "strcat")
     {
         if (!sig("pp")) BAD();
+        {
+            size_t sl = qlen(1), dl = fn == "strcat" ? qlen(0) : 0;
+            allowR(1, 0, sl + 1);
+            if (fn == "strcat") allowR(0, 0, dl + sl + 1);
+            allowW(0, dl, sl + 1);
+        }
         char *r = fn == "strcpy" ? igv_strcpy(P(0), P(1)) : igv_strcat(P(0), P(1));
         ret = offs(r, P(0));
         if (fn == "strcpy") strcpy(Q(0), Q(1)); else strcat(Q(0), Q(1));
@@ -332,6 +595,14 @@ static void run_op(const std::vector<std::string> &w, const std::string &, out &
         size_t sl = strnlen(Q(1), avail(1));
         if (sl == avail(1)) o.tag("unterminated");
         o.tag(n == 0 ? "n=0" : sl < n ? "n>len" : sl == n ? "n=len" : "n<len");
+        allowR(1, 0, std::min(sl + 1, n));
+        if (fn == "strncpy") allowW(0, 0, n);
+        else
+        {
+            size_t dl = qlen(0), c = std::min(sl, n);
+            allowR(0, 0, dl + c + 1);
+            allowW(0, dl, c + 1);
+        }
         char *r = fn == "strncpy" ? igv_strncpy(P(0), P(1), n) : igv_strncat(P(0), P(1), n);
         ret = offs(r, P(0));
         if (fn == "strncpy") strncpy(Q(0), Q(1), n); else strncat(Q(0), Q(1), n);
@@ -342,12 +613,15 @@ static void run_op(const std::vector<std::string> &w, const std::string &, out &
         if (!sig("ppi")) BAD();
         size_t n = I(2), sl = strlen(Q(1));
         o.tag(n == 0 ? "size=0" : sl >= n ? "truncated" : "fits");
+        allowR(1, 0, sl + 1);
+        if (n) allowW(0, 0, std::min(sl, n - 1) + 1);
         ret = std::to_string(igv_strlcpy(P(0), P(1), n));
         exp = std::to_string(ref_strlcpy(Q(0), Q(1), n));
     }
     else if (fn == "strcmp" || fn == "strcasecmp")
     {
         if (!sig("pp")) BAD();
+        allowR(0, 0, qlen(0) + 1); allowR(1, 0, qlen(1) + 1);
         int r = sgn(fn == "strcmp" ? igv_strcmp(P(0), P(1)) : igv_strcasecmp(P(0), P(1)));
         int e = sgn(fn == "strcmp" ? strcmp(Q(0), Q(1)) : strcasecmp(Q(0), Q(1)));
         ret = sgs(r); exp = sgs(e);
@@ -359,6 +633,8 @@ static void run_op(const std::vector<std::string> &w, const std::string &, out &
         size_t n = I(2);
         if (n == 0) o.tag("n=0");
         if (!has_nul((uint8_t *)Q(0), avail(0)) || !has_nul((uint8_t *)Q(1), avail(1))) o.tag("unterminated");
+        allowR(0, 0, std::min(qlen(0) + 1, n)); allowR(1, 0, std::min(qlen(1) + 1, n));
+        if (n == ~(size_t)0) o.tag("n=SIZE_MAX");
         int r = sgn(fn == "strncmp" ? igv_strncmp(P(0), P(1), n) : igv_strncasecmp(P(0), P(1), n));
         int e = sgn(fn == "strncmp" ? strncmp(Q(0), Q(1), n) : strncasecmp(Q(0), Q(1), n));
         ret = sgs(r); exp = sgs(e);
@@ -370,6 +646,7 @@ static void run_op(const std::vector<std::string> &w, const std::string &, out &
         int c = C(1);
         if (c < 0 || c > 255) o.tag("c-outside-uchar");
         if ((char)c == 0) o.tag("c-is-nul");
+        allowR(0, 0, qlen(0) + 1);
         char *r = fn == "strchr" ? igv_strchr(P(0), c) : fn == "strrchr" ? igv_strrchr(P(0), c) : igv_strchrnul(P(0), c);
         char *e = fn == "strchr" ? strchr(Q(0), c) : fn == "strrchr" ? strrchr(Q(0), c) : strchrnul(Q(0), c);
         ret = offs(r, P(0)); exp = offs(e, Q(0));
@@ -378,6 +655,7 @@ static void run_op(const std::vector<std::string> &w, const std::string &, out &
     else if (fn == "strstr" || fn == "strcasestr" || fn == "strpbrk")
     {
         if (!sig("pp")) BAD();
+        allowR(0, 0, qlen(0) + 1); allowR(1, 0, qlen(1) + 1);
         char *r = fn == "strstr" ? igv_strstr(P(0), P(1)) : fn == "strcasestr" ? igv_strcasestr(P(0), P(1)) : igv_strpbrk(P(0), P(1));
         char *e = fn == "strstr" ? strstr(Q(0), Q(1)) : fn == "strcasestr" ? strcasestr(Q(0), Q(1)) : strpbrk(Q(0), Q(1));
         ret = offs(r, P(0)); exp = offs(e, Q(0));
@@ -387,6 +665,7 @@ static void run_op(const std::vector<std::string> &w, const std::string &, out &
     else if (fn == "strspn" || fn == "strcspn")
     {
         if (!sig("pp")) BAD();
+        allowR(0, 0, qlen(0) + 1); allowR(1, 0, qlen(1) + 1);
         size_t r = fn == "strspn" ? igv_strspn(P(0), P(1)) : igv_strcspn(P(0), P(1));
         size_t e = fn == "strspn" ? strspn(Q(0), Q(1)) : strcspn(Q(0), Q(1));
         ret = std::to_string(r); exp = std::to_string(e);
@@ -396,6 +675,7 @@ static void run_op(const std::vector<std::string> &w, const std::string &, out &
     else if (fn == "strlwr" || fn == "strupr")
     {
         if (!sig("p")) BAD();
+        allowR(0, 0, qlen(0) + 1); allowW(0, 0, qlen(0) + 1);
         char *r = fn == "strlwr" ? igv_strlwr(P(0)) : igv_strupr(P(0));
         ret = offs(r, P(0));
         ref_case(Q(0), fn == "strlwr");
@@ -409,6 +689,7 @@ static void run_op(const std::vector<std::string> &w, const std::string &, out &
         char *r, *e;
         if (fn == "strdup")
         {
+            allowR(0, 0, qlen(0) + 1);
             r = igv_strdup(P(0));
             e = strdup(Q(0));
         }
@@ -418,13 +699,14 @@ static void run_op(const std::vector<std::string> &w, const std::string &, out &
             if (!has_nul((uint8_t *)Q(0), avail(0))) o.tag("unterminated");
             size_t sl = strnlen(Q(0), avail(0));
             o.tag(n == 0 ? "n=0" : sl < n ? "n>len" : sl == n ? "n=len" : "n<len");
+            allowR(0, 0, std::min(qlen(0) + 1, n));
             r = igv_strndup(P(0), n);
             e = strndup(Q(0), ne);
         }
-        exp = g_fail ? "N" : hex((uint8_t *)e, strlen(e) + 1);
+        exp = g_fail ? "N" : lg ? hashed((uint8_t *)e, strlen(e) + 1) : hex((uint8_t *)e, strlen(e) + 1);
         if (!r) ret = "N";
         else if ((uint8_t *)r != g_blk) ret = "not-the-malloc-block";
-        else ret = hex(g_blk, g_blk_n);
+        else ret = lg ? hashed(g_blk, g_blk_n) : hex(g_blk, g_blk_n);
         if (g_fail) o.tag("malloc-fails");
         free(e);
         free(g_blk);
@@ -437,6 +719,33 @@ static void run_op(const std::vector<std::string> &w, const std::string &, out &
         for (auto &x : a) if (x.k != Arg::CALL) BAD();
         uint8_t *base = a[0].snul ? bufs[0]->p : (uint8_t *)P(0);
         uint8_t *qbase = a[0].snul ? cp[0].data() : (uint8_t *)Q(0);
+        // allowed: the string (from the lowest pointer passed to its ORIGINAL terminator) is read and
+        // written, each delimiter string is read
+        {
+            int lowk = -1;
+            for (size_t k = 0; k < a.size(); k++)
+                if (!a[k].snul && (lowk < 0 || (a[k].b == a[lowk].b && a[k].off < a[lowk].off))) lowk = (int)k;
+            if (lowk >= 0)
+            {
+                bool one_buf = true;
+                for (size_t k = 0; k < a.size(); k++) if (!a[k].snul && a[k].b != a[lowk].b) one_buf = false;
+                if (one_buf)
+                {
+                    size_t l0 = qlen(lowk) + 1;
+                    allowR(lowk, 0, l0); allowW(lowk, 0, l0);
+                    for (size_t k = 0; k < a.size(); k++)
+                    {
+                        const uint8_t *dq = cp[a[k].b2].data() + a[k].off2;
+                        size_t dl = strnlen((const char *)dq, cn[a[k].b2] - a[k].off2) + 1;
+                        uintptr_t x = (uintptr_t)(bufs[a[k].b2]->p + a[k].off2);
+                        Span &sp = AR[a[k].b2];
+                        if (x < sp.lo) sp.lo = x;
+                        if (x + dl > sp.hi) sp.hi = x + dl;
+                    }
+                }
+                else exact = false;
+            }
+        }
         char *save = nullptr, *qsave = nullptr;
         bool first = true;
         size_t toks = 0;
@@ -460,19 +769,67 @@ static void run_op(const std::vector<std::string> &w, const std::string &, out &
     else
         BAD();
     // ---- result + oracle
+    g_mon = false;
     o.result = ret;
     for (size_t k = 0; k < bufs.size(); k++)
-        o.result += " " + hex(bufs[k]->p, bufs[k]->n);
+        o.result += " " + (lg ? hashed(bufs[k]->p, bufs[k]->n) : hex(bufs[k]->p, bufs[k]->n));
+    if (g_viol[0])
+        o.fail(fn + ": " + g_viol);
+    if (exact)
+        for (size_t k = 0; k < bufs.size() && k < 16; k++)
+        {
+            const Zone &z = g_z[k];
+            auto rel = [&](uintptr_t x) { return std::to_string((ptrdiff_t)(x - z.lo)); };
+            std::string nm(1, (char)('A' + k));
+            if (z.rhi > z.rlo && (z.rlo < AR[k].lo || z.rhi > AR[k].hi))
+                o.fail(fn + " read " + nm + "[" + rel(z.rlo) + "," + rel(z.rhi) + "), the definition allows " +
+                       (AR[k].hi > AR[k].lo ? nm + "[" + rel(AR[k].lo) + "," + rel(AR[k].hi) + ")" : "no read of " + nm));
+            if (z.whi > z.wlo && (z.wlo < AW[k].lo || z.whi > AW[k].hi))
+                o.fail(fn + " wrote " + nm + "[" + rel(z.wlo) + "," + rel(z.whi) + "), the definition allows " +
+                       (AW[k].hi > AW[k].lo ? nm + "[" + rel(AW[k].lo) + "," + rel(AW[k].hi) + ")" : "no write to " + nm));
+        }
     if (ret != exp)
         o.fail(fn + " returned " + ret + ", the definition (host libc) gives " + exp);
     for (size_t k = 0; k < bufs.size(); k++)
     {
         if (memcmp(bufs[k]->p, cp[k].data(), cn[k]) != 0)
-            o.fail(fn + " left buffer " + std::string(1, (char)('A' + k)) + " = " + hex(bufs[k]->p, bufs[k]->n) + ", the definition gives " + hex(cp[k].data(), cn[k]));
+        {
+            if (lg)
+            {
+                size_t at = 0;
+                while (at < cn[k] && bufs[k]->p[at] == cp[k][at]) at++;
+                o.fail(fn + " left buffer " + std::string(1, (char)('A' + k)) + " different from the definition, first at index " + std::to_string(at) + " of " + std::to_string(cn[k]));
+            }
+            else
+                o.fail(fn + " left buffer " + std::string(1, (char)('A' + k)) + " = " + hex(bufs[k]->p, bufs[k]->n) + ", the definition gives " + hex(cp[k].data(), cn[k]));
+        }
         if (!bufs[k]->pad_ok())
             o.fail(fn + " wrote below buffer " + std::string(1, (char)('A' + k)));
     }
 }
+
+struct Premain
+{
+    Premain()
+    {
+        for (int k = 0; k < PREMAIN_N; k++)
+        {
+            std::vector<std::string> w;
+            std::string line = PREMAIN_LINES[k], t;
+            for (char c : line)
+            {
+                if (c == ' ') { if (!t.empty()) w.push_back(t); t.clear(); }
+                else t += c;
+            }
+            if (!t.empty()) w.push_back(t);
+            out o;
+            run_op(w, line, o);
+            snprintf(g_pm_result[k], sizeof g_pm_result[k], "%s", o.result.c_str());
+            snprintf(g_pm_oracle[k], sizeof g_pm_oracle[k], "%s", o.oracle.c_str());
+        }
+    }
+};
+__attribute__((init_priority(101))) static Premain g_premain_object;
 
 // ---------------------------------------------------------------- gen
 static const std::vector<uint8_t> SPECIAL = {0x01, 0x7f, 0x80, 0xff, 'A', 'Z', 'a', 'z', '@', '[', '`', '{', 0xC1, 0xE1, ' ', ','};
@@ -512,6 +869,206 @@ static std::string cint(rng &r, uint8_t b)
 static void E(const std::string &s) { puts(s.c_str()); }
 static std::string N(uint64_t n) { return "#" + std::to_string(n); }
 static std::string Pp(char b, size_t off) { return std::string(1, b) + "+" + std::to_string(off); }
+
+// ---------------------------------------------------------------- round 3
+static std::string LB(char name, unsigned align, size_t len, unsigned mul, unsigned add, const std::vector<std::pair<size_t, uint8_t>> &patch = {})
+{
+    std::string t = std::string(1, name) + "=" + std::to_string(align) + ":@" + std::to_string(len) + "," + std::to_string(mul) + "," + std::to_string(add);
+    char b[40];
+    for (auto &pp : patch) { snprintf(b, sizeof b, ",%zu=%02x", pp.first, pp.second); t += b; }
+    return t;
+}
+static uint8_t pat(size_t i, unsigned mul, unsigned add) { return (uint8_t)(1 + (i * mul + add) % 251); }
+
+__attribute__((no_sanitize("address", "undefined"))) static void gen3(rng &r, bool th, int K)
+{
+    // ---- constants and tables read out of the build
+    E("plat2");
+    for (int k = 0; k < 13; k++) E(std::string("cttab ") + CT_NAMES[k] + " libc");
+    for (int k = 0; k < 13; k++) E(std::string("cttab ") + CT_NAMES[k] + " igris");
+    for (int c = -1; c <= 255; c++) E("ctype #" + std::to_string(c));
+    for (long long c : {-2LL, -128LL, -129LL, -191LL, -159LL, -256LL, 256LL, 257LL, 256LL + 'A', 256LL + 'a', 512LL + '0', 256LL + ' ', 65536LL + 'A', 0x7fffff41LL, 2147483647LL, -2147483648LL, -2147483647LL, 0x100LL + 0x7f, 0x80LL, 0x17fLL, -0x80LL + 0x100})
+        E("ctype #" + std::to_string(c));
+    for (int k = 0; k < 40 * K; k++) E("ctype #" + std::to_string((long long)(int32_t)r.next()));
+    // ---- before main()
+    for (int k = 0; k < PREMAIN_N; k++) E("premain " + std::to_string(k) + " " + PREMAIN_LINES[k]);
+
+    // ---- arguments INSIDE larger buffers: only the access monitor can tell whether
+    // the call stayed inside the range the definition allows
+    auto emb = [&](const bytes &v, size_t &x) {
+        x = r.range(1, 9);
+        return cat(rbytes(r, x, true), cat(v, rbytes(r, r.range(1, 9), true)));
+    };
+    for (int k = 0; k < 120 * K; k++)
+    {
+        size_t x, y;
+        size_t l1 = r.range(0, 40), l2 = r.range(0, 12);
+        bytes s1 = rbytes(r, l1, false), s2 = rbytes(r, l2, false);
+        if (r.chance(50) && l1 >= l2 && l2) std::copy(s2.begin(), s2.end(), s1.begin() + r.below(l1 - l2 + 1));
+        std::string A = B('A', r.below(8), emb(cstr(s1), x)), Bb = B('B', r.below(8), emb(cstr(s2), y));
+        std::string pa = Pp('A', x), pb = Pp('B', y);
+        uint8_t c = r.chance(60) && l1 ? s1[r.below(l1)] : (uint8_t)r.next();
+        for (const char *fn : {"strlen"}) E(std::string(fn) + " " + A + " " + pa);
+        for (const char *fn : {"strchr", "strrchr", "strchrnul"}) E(std::string(fn) + " " + A + " " + pa + " " + cint(r, c));
+        for (const char *fn : {"strcmp", "strcasecmp", "strstr", "strcasestr", "strspn", "strcspn", "strpbrk"}) E(std::string(fn) + " " + A + " " + Bb + " " + pa + " " + pb);
+        for (uint64_t n : {(uint64_t)0, (uint64_t)1, (uint64_t)(l1 ? l1 - 1 : 0), (uint64_t)l1, (uint64_t)l1 + 1, (uint64_t)r.range(0, 45)})
+        {
+            if (!th && r.chance(50)) continue;
+            E("strnlen " + A + " " + pa + " " + N(n));
+            E("strncmp " + A + " " + Bb + " " + pa + " " + pb + " " + N(n));
+            E("strncasecmp " + A + " " + Bb + " " + pa + " " + pb + " " + N(n));
+            E("memchr " + A + " " + pa + " " + cint(r, c) + " " + N(std::min<uint64_t>(n, l1 + 1)));
+            E("memrchr " + A + " " + pa + " " + cint(r, c) + " " + N(std::min<uint64_t>(n, l1 + 1)));
+            E("memcmp " + A + " " + Bb + " " + pa + " " + pb + " " + N(std::min<uint64_t>(n, std::min(l1, l2) + 1)));
+            E("strndup " + A + " " + pa + " " + N(n) + " #0");
+        }
+        E("strdup " + A + " " + pa + " #0");
+        // writers: the destination lies inside a larger buffer
+        {
+            size_t dx = r.range(1, 9), room = l2 + 1 + r.range(0, 5), dl = r.range(0, 10);
+            bytes d = cat(rbytes(r, dx, true), cat(cstr(rbytes(r, dl, false)), rbytes(r, room, true)));
+            std::string D = B('A', r.below(8), d);
+            E("strcat " + D + " " + Bb + " " + Pp('A', dx) + " " + pb);
+            E("strcpy " + D + " " + Bb + " " + Pp('A', dx) + " " + pb);
+            for (uint64_t n : {(uint64_t)0, (uint64_t)1, (uint64_t)(l2 ? l2 - 1 : 0), (uint64_t)l2, (uint64_t)l2 + 1})
+                if (th || r.chance(50)) E("strncat " + D + " " + Bb + " " + Pp('A', dx) + " " + pb + " " + N(n));
+        }
+        // a token history inside a larger buffer, the delimiter sets change between the calls
+        {
+            static const std::vector<uint8_t> AL = {',', ';', 'a', 'b', 0xE1};
+            size_t sl = r.range(0, 14), tx;
+            bytes t(sl);
+            for (auto &ch : t) ch = r.pick(AL);
+            std::string line = "strtok_r " + B('A', r.below(8), emb(cstr(t), tx)) + " " + B('B', r.below(8), cstr({','})) + " " + B('C', r.below(8), cstr({';', 0xE1}));
+            line += " " + Pp('A', tx) + ",B+0";
+            for (int i = 0, nc = (int)r.range(1, 6); i < nc; i++) line += r.chance(50) ? " N,C+0" : " N,B+0";
+            E(line);
+        }
+    }
+    // aliasing (read-only) arguments: the same string / overlapping suffixes passed twice
+    for (int k = 0; k < 60 * K; k++)
+    {
+        size_t l = r.range(0, 24), x;
+        bytes s1(l);
+        for (auto &c : s1) c = (uint8_t)("abAB,\xe1"[r.below(6)]);
+        std::string A = B('A', r.below(8), emb(cstr(s1), x));
+        size_t j = r.below(l + 1), j2 = r.below(l + 1);
+        std::string p0 = Pp('A', x), pj = Pp('A', x + j), pj2 = Pp('A', x + j2);
+        for (const char *fn : {"strcmp", "strcasecmp", "strstr", "strcasestr", "strspn", "strcspn", "strpbrk"})
+        {
+            E(std::string(fn) + " " + A + " " + p0 + " " + p0);
+            E(std::string(fn) + " " + A + " " + p0 + " " + pj);   // the needle / set is a suffix of the string itself: a match at the very end
+            E(std::string(fn) + " " + A + " " + pj + " " + pj2);  // also needles longer than the haystack
+        }
+        for (uint64_t n : {(uint64_t)0, (uint64_t)1, (uint64_t)l, (uint64_t)l + 1, ~(uint64_t)0})
+        {
+            E("strncmp " + A + " " + p0 + " " + pj + " " + N(n));
+            E("strncasecmp " + A + " " + pj2 + " " + pj + " " + N(n));
+        }
+        E("memcmp " + A + " " + p0 + " " + p0 + " " + N(l + 1));
+        E("memcmp " + A + " " + p0 + " " + pj + " " + N(l + 1 - j));
+    }
+    // memchr / strnlen / strncmp with n = SIZE_MAX where ISO defines it (the match / terminator exists)
+    for (int k = 0; k < 30 * K; k++)
+    {
+        size_t l = r.range(0, 30), x;
+        bytes s1 = rbytes(r, l, false);
+        std::string A = B('A', r.below(8), emb(cstr(s1), x));
+        E("memchr " + A + " " + Pp('A', x) + " #0 " + N(~(uint64_t)0));
+        if (l) E("memchr " + A + " " + Pp('A', x) + " " + cint(r, s1[r.below(l)]) + " " + N(~(uint64_t)0 - r.below(3)));
+        E("strnlen " + A + " " + Pp('A', x) + " " + N(~(uint64_t)0));
+        E("strncmp " + A + " " + B('B', r.below(8), cstr(s1)) + " " + Pp('A', x) + " B+0 " + N(~(uint64_t)0));
+        E("strncasecmp " + A + " " + B('B', r.below(8), cstr(s1)) + " " + Pp('A', x) + " B+0 " + N(~(uint64_t)0));
+        E("strndup " + A + " " + Pp('A', x) + " " + N(~(uint64_t)0) + " #0");
+        E("strncat " + B('A', r.below(8), cat(cstr(rbytes(r, 3, false)), bytes(l, 0x11))) + " " + B('B', r.below(8), cstr(s1)) + " A+0 B+0 " + N(~(uint64_t)0));
+    }
+    // boundary sizes 255 / 256 / 257 and 65535 / 65536 / 65537 (a counter narrowed to 8 or 16 bits)
+    for (size_t n : {255u, 256u, 257u, 65535u, 65536u, 65537u})
+    {
+        std::string sn = N(n);
+        unsigned al = (unsigned)r.below(8);
+        E("L:memcpy " + LB('A', al, n, 0, 0) + " " + LB('B', 8 - al, n, 7, 3) + " A+0 B+0 " + sn);
+        E("L:memmove " + LB('A', al, n + 9, 13, 5) + " A+9 A+0 " + sn);
+        E("L:memset " + LB('A', al, n, 5, 1) + " A+0 #171 " + sn);
+        E("L:memcmp " + LB('A', al, n, 7, 3) + " " + LB('B', 1, n, 7, 3, {{n - 1, 0xff}}) + " A+0 B+0 " + sn);
+        E("L:memchr " + LB('A', al, n, 0, 4, {{n - 1, 0xff}}) + " A+0 #255 " + sn);
+        E("L:memrchr " + LB('A', al, n, 0, 4, {{0, 0xff}}) + " A+0 #255 " + sn);
+        E("L:strlen " + LB('A', al, n + 1, 7, 3, {{n, 0}}) + " A+0");
+        E("L:strnlen " + LB('A', al, n + 1, 7, 3, {{n, 0}}) + " A+0 " + N(n + 5));
+        E("L:strcpy " + LB('A', al, n + 1, 0, 0) + " " + LB('B', 3, n + 1, 7, 3, {{n, 0}}) + " A+0 B+0");
+        E("L:strncpy " + LB('A', al, n, 0, 0) + " " + LB('B', 3, 10, 7, 3, {{9, 0}}) + " A+0 B+0 " + sn);
+        E("L:strcmp " + LB('A', al, n + 1, 7, 3, {{n, 0}}) + " " + LB('B', 5, n + 1, 7, 3, {{n - 1, 0xfe}, {n, 0}}) + " A+0 B+0");
+        E("L:strncmp " + LB('A', al, n + 1, 7, 3, {{n, 0}}) + " " + LB('B', 5, n + 1, 7, 3, {{n - 1, 0xfe}, {n, 0}}) + " A+0 B+0 " + sn);
+        E("L:strncmp " + LB('A', al, n + 1, 7, 3, {{n, 0}}) + " " + LB('B', 5, n + 1, 7, 3, {{n - 1, 0xfe}, {n, 0}}) + " A+0 B+0 " + N(n - 1));
+        E("L:strchr " + LB('A', al, n + 1, 0, 4, {{n - 1, 0xff}, {n, 0}}) + " A+0 #255");
+        E("L:strrchr " + LB('A', al, n + 1, 0, 4, {{0, 0xff}, {n, 0}}) + " A+0 #-1");
+        E("L:strdup " + LB('A', al, n + 1, 7, 3, {{n, 0}}) + " A+0 #0");
+        E("L:strndup " + LB('A', al, n + 1, 7, 3, {{n, 0}}) + " A+0 " + N(n - 1) + " #0");
+        E("L:strlcpy " + LB('A', al, n, 0, 0) + " " + LB('B', 3, n + 3, 7, 3, {{n + 2, 0}}) + " A+0 B+0 " + sn);
+    }
+    // ---- long inputs (>= 300 KiB) once per linear routine
+    {
+        const size_t L = 307203;
+        std::string sL = N(L);
+        // positions of letters in the pattern (mul 7, add 3) for the case-insensitive comparisons
+        std::vector<std::pair<size_t, uint8_t>> flips;
+        for (size_t i = 1000; i < L - 10 && flips.size() < 12; i += 23456)
+            for (size_t j = i; j < i + 300; j++)
+                if (isalpha(pat(j, 7, 3))) { flips.push_back({j, (uint8_t)(pat(j, 7, 3) ^ 0x20)}); break; }
+        auto with = [](std::vector<std::pair<size_t, uint8_t>> v, std::vector<std::pair<size_t, uint8_t>> more) { v.insert(v.end(), more.begin(), more.end()); return v; };
+        E("L:memcpy " + LB('A', 8, L, 0, 0) + " " + LB('B', 0, L, 7, 3) + " A+0 B+0 " + sL);
+        E("L:memcpy " + LB('A', 1, L, 0, 0) + " " + LB('B', 2, L, 7, 3) + " A+0 B+0 " + sL);
+        E("L:memmove " + LB('A', 0, L + 104, 13, 5) + " A+104 A+0 " + sL);
+        E("L:memmove " + LB('A', 0, L + 104, 13, 5) + " A+0 A+104 " + sL);
+        E("L:memmove " + LB('A', 3, L + 1, 13, 5) + " A+0 A+1 " + sL);
+        E("L:memset " + LB('A', 3, L, 5, 1) + " A+0 #-85 " + sL);
+        E("L:memcmp " + LB('A', 0, L, 7, 3) + " " + LB('B', 1, L, 7, 3, {{L - 1, 0xff}}) + " A+0 B+0 " + sL);
+        E("L:memcmp " + LB('A', 0, L, 7, 3) + " " + LB('B', 1, L, 7, 3) + " A+0 B+0 " + sL);
+        E("L:memchr " + LB('A', 5, L, 0, 4, {{L - 1, 0xff}}) + " A+0 #255 " + sL);
+        E("L:memchr " + LB('A', 5, L, 0, 4) + " A+0 #255 " + sL);
+        E("L:memchr " + LB('A', 5, L, 0, 4, {{L - 1, 0xff}}) + " A+0 #-1 " + N(~(uint64_t)0));
+        E("L:memrchr " + LB('A', 6, L, 0, 4, {{0, 0xff}}) + " A+0 #255 " + sL);
+        E("L:memrchr " + LB('A', 6, L, 0, 4) + " A+0 #255 " + sL);
+        E("L:strlen " + LB('A', 7, L, 7, 3, {{L - 1, 0}}) + " A+0");
+        E("L:strnlen " + LB('A', 7, L, 7, 3, {{L - 1, 0}}) + " A+0 " + N(~(uint64_t)0));
+        E("L:strnlen " + LB('A', 7, L, 7, 3) + " A+0 " + sL);
+        E("L:strcpy " + LB('A', 2, L, 0, 0) + " " + LB('B', 3, L, 7, 3, {{L - 1, 0}}) + " A+0 B+0");
+        E("L:strncpy " + LB('A', 2, L, 0, 0) + " " + LB('B', 3, 70001, 7, 3, {{70000, 0}}) + " A+0 B+0 " + sL);
+        E("L:strncpy " + LB('A', 2, L, 0, 0) + " " + LB('B', 3, L, 7, 3) + " A+0 B+0 " + sL);
+        E("L:strlcpy " + LB('A', 2, L, 0, 0) + " " + LB('B', 3, L + 40, 7, 3, {{L + 39, 0}}) + " A+0 B+0 " + sL);
+        E("L:strlcpy " + LB('A', 2, 5, 0, 0) + " " + LB('B', 3, L, 7, 3, {{L - 1, 0}}) + " A+0 B+0 #5");
+        E("L:strcat " + LB('A', 4, L, 0, 8, {{10, 0}}) + " " + LB('B', 1, L - 11, 7, 3, {{L - 12, 0}}) + " A+0 B+0");
+        E("L:strncat " + LB('A', 4, L, 0, 8, {{10, 0}}) + " " + LB('B', 1, L - 11, 7, 3, {{L - 12, 0}}) + " A+0 B+0 " + sL);
+        E("L:strncat " + LB('A', 4, L, 0, 8, {{10, 0}}) + " " + LB('B', 1, L - 12, 7, 3) + " A+0 B+0 " + N(L - 12));
+        E("L:strcmp " + LB('A', 0, L, 7, 3, {{L - 1, 0}}) + " " + LB('B', 5, L, 7, 3, {{L - 2, 0xfe}, {L - 1, 0}}) + " A+0 B+0");
+        E("L:strcmp " + LB('A', 0, L, 7, 3, {{L - 1, 0}}) + " " + LB('B', 5, L, 7, 3, {{L - 1, 0}}) + " A+0 B+0");
+        E("L:strncmp " + LB('A', 0, L, 7, 3, {{L - 1, 0}}) + " " + LB('B', 5, L, 7, 3, {{L - 2, 0xfe}, {L - 1, 0}}) + " A+0 B+0 " + N(~(uint64_t)0));
+        E("L:strncmp " + LB('A', 0, L, 7, 3) + " " + LB('B', 5, L, 7, 3, {{L - 1, 0xfe}}) + " A+0 B+0 " + N(L - 1));
+        E("L:strcasecmp " + LB('A', 0, L, 7, 3, {{L - 1, 0}}) + " " + LB('B', 5, L, 7, 3, with(flips, {{L - 1, 0}})) + " A+0 B+0");
+        E("L:strcasecmp " + LB('A', 0, L, 7, 3, {{L - 1, 0}}) + " " + LB('B', 5, L, 7, 3, with(flips, {{L - 2, 0xfe}, {L - 1, 0}})) + " A+0 B+0");
+        E("L:strncasecmp " + LB('A', 0, L, 7, 3, {{L - 1, 0}}) + " " + LB('B', 5, L, 7, 3, with(flips, {{L - 2, 0xfe}, {L - 1, 0}})) + " A+0 B+0 " + N(L - 2));
+        E("L:strncasecmp " + LB('A', 0, L, 7, 3, {{L - 1, 0}}) + " " + LB('B', 5, L, 7, 3, with(flips, {{L - 2, 0xfe}, {L - 1, 0}})) + " A+0 B+0 " + sL);
+        E("L:strchr " + LB('A', 1, L, 0, 4, {{L - 2, 0xff}, {L - 1, 0}}) + " A+0 #255");
+        E("L:strchr " + LB('A', 1, L, 0, 4, {{L - 1, 0}}) + " A+0 #255");
+        E("L:strchr " + LB('A', 1, L, 0, 4, {{L - 1, 0}}) + " A+0 #256");
+        E("L:strchrnul " + LB('A', 1, L, 0, 4, {{L - 1, 0}}) + " A+0 #255");
+        E("L:strrchr " + LB('A', 1, L, 0, 4, {{0, 0xff}, {L - 1, 0}}) + " A+0 #-1");
+        E("L:strrchr " + LB('A', 1, L, 0, 4, {{L - 1, 0}}) + " A+0 #5");
+        E("L:strrchr " + LB('A', 1, L, 0, 4, {{L - 1, 0}}) + " A+0 #0");
+        E("L:strstr " + LB('A', 2, L, 0, 96, {{L - 2, 'b'}, {L - 1, 0}}) + " " + B('B', 0, cstr({'a', 'b'})) + " A+0 B+0");
+        E("L:strstr " + LB('A', 2, L, 0, 96, {{L - 1, 0}}) + " " + B('B', 0, cstr({'a', 'b'})) + " A+0 B+0");
+        E("L:strcasestr " + LB('A', 2, L, 0, 96, {{L - 2, 'b'}, {L - 1, 0}}) + " " + B('B', 0, cstr({'A', 'B'})) + " A+0 B+0");
+        E("L:strspn " + LB('A', 3, L, 0, 96, {{L - 1, 0}}) + " " + B('B', 0, cstr({'b', 'a'})) + " A+0 B+0");
+        E("L:strcspn " + LB('A', 3, L, 0, 96, {{L - 2, ','}, {L - 1, 0}}) + " " + B('B', 0, cstr({';', ','})) + " A+0 B+0");
+        E("L:strpbrk " + LB('A', 3, L, 0, 96, {{L - 2, ','}, {L - 1, 0}}) + " " + B('B', 0, cstr({';', ','})) + " A+0 B+0");
+        E("L:strtok_r " + LB('A', 3, L, 0, 96, {{0, ','}, {L - 5, ','}, {L - 1, 0}}) + " " + B('B', 0, cstr({','})) + " A+0,B+0 N,B+0 N,B+0");
+        E("L:strdup " + LB('A', 7, L, 7, 3, {{L - 1, 0}}) + " A+0 #0");
+        E("L:strndup " + LB('A', 7, L, 7, 3) + " A+0 " + sL + " #0");
+        E("L:strndup " + LB('A', 7, L, 7, 3, {{L - 1, 0}}) + " A+0 " + N(L - 7) + " #0");
+        E("L:strlwr " + LB('A', 5, L, 0, 119, {{0, 'Q'}, {65535, 'A'}, {65536, 'Z'}, {L - 2, 'M'}, {L - 1, 0}}) + " A+0");
+        E("L:strupr " + LB('A', 5, L, 0, 87, {{0, 'q'}, {65535, 'a'}, {65536, 'z'}, {L - 2, 'm'}, {L - 1, 0}}) + " A+0");
+    }
+}
 
 // pure generation (no code under test runs here): not instrumenting it cuts the
 // harness compile time from 40 s to 15 s
@@ -862,6 +1419,7 @@ __attribute__((no_sanitize("address", "undefined"))) static void gen(rng &r, con
         bytes s = cat(rbytes(r, x, true), cat(cstr(rbytes(r, len, false)), rbytes(r, r.range(0, 3), true)));
         E(std::string(r.chance(50) ? "strlwr " : "strupr ") + B('A', r.below(8), s) + " " + Pp('A', x));
     }
+    gen3(r, th, K);
 }
 
 int main(int argc, char **argv) { return main_(argc, argv, gen, run_op); }
